@@ -97,6 +97,7 @@ pub fn pred() -> impl Strategy<Value = PredM> {
     prop_oneof![
         12 => pred_sized(small_count(), small_count()),
         3 => pred_sized(25usize..70, 0usize..40),
+        1 => pred_sized(110usize..300, 0usize..40),
         1 => pred_sized(prop_oneof![Just(999usize), Just(1000usize)], prop_oneof![Just(0usize), Just(999usize), Just(1000usize)]),
         1 => pred_sized(0usize..3, prop_oneof![Just(999usize), Just(1000usize)]),
     ]
@@ -108,7 +109,7 @@ pub fn small_pred() -> impl Strategy<Value = PredM> {
 
 pub fn contract() -> impl Strategy<Value = ContractM> {
     (
-        prop_oneof![6 => proptest::collection::vec(small_pred(), 0..5), 1 => proptest::collection::vec(pred(), 0..3), 1 => proptest::collection::vec(small_pred(), 5..21)],
+        prop_oneof![6 => proptest::collection::vec(small_pred(), 0..5), 1 => proptest::collection::vec(pred(), 0..3), 1 => proptest::collection::vec(small_pred(), 5..21), 1 => proptest::collection::vec(small_pred(), 30..35), 1 => proptest::collection::vec(small_pred(), 62..67)],
         bytes32(),
         proptest::option::weighted(0.25, any::<u32>()),
     )
